@@ -153,6 +153,7 @@ async def examine_message(cx, s, uid, seq, info, how, mbox):
         cx.viol(["C06", "C16", "C07"], "structure-fetch-failed", f"{tag}: {r4.brief()}", shape=info["shape"])
     else:
         check_envelope_roundtrip(cx, d4.get("ENVELOPE"), info, tag)
+        check_from_name_roundtrip(cx, d4.get("ENVELOPE"), info, tag)
     await s.cmd(f"UID FETCH {uid} (BODY.PEEK[1] BODY.PEEK[1.MIME] BODY.PEEK[HEADER.FIELDS (Subject X-CID)] BODY.PEEK[HEADER.FIELDS.NOT (Subject To)])")
     await s.cmd(f"UID FETCH {uid} (BODY.PEEK[2] BODY.PEEK[2.HEADER] BODY.PEEK[1.1] BODY.PEEK[2.TEXT])")
     for macro in ("FAST", "ALL", "FULL"):
@@ -190,6 +191,30 @@ def check_envelope_roundtrip(cx, env, info, tag):
             continue  # the same date-time, re-spelled
         if dec2047(bytes(got)) != dec2047(unfold(want)):
             cx.viol(["C07"], "envelope-string-differs-from-header", f"{tag}: {name}: transported {bytes(got)!r}, header {want!r}", field=name)
+
+
+def check_from_name_roundtrip(cx, env, info, tag):
+    """The display name of a single-address From header, when it is a plain
+    phrase or an encoded word (no quoting or comments whose reading differs
+    between parsers), decodes to the same text as the header's."""
+    if env is None or "headers" not in info:
+        return
+    froms = [v for n, v in info["headers"] if n.lower() == "from"]
+    if len(froms) != 1:
+        return
+    m = re.fullmatch(r"\s*((?:=\?[^?\s]+\?[bBqQ]\?[^?\s]*\?=)|(?:[A-Za-z][A-Za-z ]*[A-Za-z]))\s*<([^<>@\s]+)@([^<>@\s]+)>\s*", unfold(froms[0]))
+    if not m:
+        return
+    cx.inc("from_name_roundtrips")
+    al = env[2]
+    if not isinstance(al, list) or len(al) != 1:
+        cx.viol(["C07"], "envelope-from-differs-from-header", f"{tag}: header {froms[0]!r}, ENVELOPE from {al!r:.120}")
+        return
+    name, adl, mbox, host = al[0]
+    got = (dec2047(bytes(name)) if name is not None else None, bytes(mbox).decode("latin-1") if mbox is not None else None, bytes(host).decode("latin-1") if host is not None else None)
+    want = (dec2047(m.group(1)), m.group(2), m.group(3))
+    if got != want:
+        cx.viol(["C07"], "envelope-from-differs-from-header", f"{tag}: header gives {want!r}, ENVELOPE transports {got!r} ({bytes(name) if name is not None else None!r})", field="from")
 
 
 def _same_instant(a, b):
